@@ -54,3 +54,14 @@ package internal
 //@   ensures rewritten-from-the-request-at-hand: clone != nil && fresh(clone) && clone.Msg != nil && builtFor[clone.Msg] == req &&
 //@           len(clone.Msg.Question) >= 1 && clone.Msg.Question[0].Name == old(m.Msg.Question[0].Name)
 //@   ensures (forall x int :: x != clone.Msg ==> builtFor[x] == old(builtFor[x]))
+
+// ---------------------------------------------------------------------------
+// C02: the filter for "no configuration" filters nothing.
+//@ func (Empty).FilterRequest
+//@   property C02
+//@   modifies nothing
+//@   ensures the-empty-filter-filters-nothing: r == nil && err == nil
+//@ func (Empty).FilterResponse
+//@   property C02
+//@   modifies nothing
+//@   ensures the-empty-filter-filters-nothing: r == nil && err == nil
